@@ -669,6 +669,7 @@ def validate_names(nodes):
 def validate_unique_names(nodes):
     """ One name has one definition: the same one may be seen through several includes. """
     defined = {}
+    included = {}
 
     def define(name, node_, own):
         known = defined.setdefault(name, node_)
@@ -678,6 +679,10 @@ def validate_unique_names(nodes):
     def visit(nodes_, own):
         for node_ in nodes_:
             if isinstance(node_, Include):
+                """ outputs are named after the file: two different files of one name cannot both be used """
+                known = included.setdefault(node_.name, node_)
+                if known is not node_ and known != node_:
+                    raise ModelError("two different files named '%s' are included" % node_.name)
                 visit(node_.members, False)
             else:
                 define(node_.name, node_, own)
